@@ -81,6 +81,13 @@ def cases(shard, rnd):
                     [255, 255, 255], [1, 1, 8], [1, 1, 9], [0, 1, 0],
                     [10, 10, 10], [13, 10, 0]):
             yield {'t': 'ph', 'ver': tri}
+        # every combination of the small / historic octet values (AMQP 0-8,
+        # 0-9, 0-9-1, 0-10, 1-0 and the protocol ids 1, 2, 3 all live here)
+        small = list(range(0, 12)) + [91, 127, 128, 255]
+        for a in small:
+            for b in small:
+                for c in small:
+                    yield {'t': 'ph', 'ver': [a, b, c]}
         for axis in range(3):
             for v in range(256):
                 tri = [rnd.randint(0, 255) for _ in range(3)]
